@@ -845,3 +845,99 @@ func ruleF4(c *Ctx) {
 		c.anchorFail("only %d stores to freeze flags found", n)
 	}
 }
+
+// ---------- F5 ----------
+
+func init() {
+	register("F5", "memoised Freeze is sound: a type whose Freeze is skipped once its frozen flag is set does not hold values of a type that can be rebound after construction without a flag of its own (a closure's cells): such contents can change after the first Freeze, and the memo would leave the later binding unfrozen. Holders are found from the type assertions the code itself performs on a field's elements", 1, ruleF5)
+	claim("C04", "F5")
+	claim("C05", "F5")
+}
+
+func ruleF5(c *Ctx) {
+	mut := mutableTypes(c.P)
+	// unflagged carriers that are written after construction
+	carriers := map[string]string{}
+	for tname, why := range mut {
+		n := c.P.NamedQ(tname)
+		if n == nil {
+			continue
+		}
+		st, ok := n.Underlying().(*types.Struct)
+		if !ok {
+			continue
+		}
+		flagged := false
+		for i := 0; i < st.NumFields(); i++ {
+			if st.Field(i).Name() == "frozen" {
+				flagged = true
+			}
+		}
+		// a carrier has a Freeze method (it takes part in freezing) but no flag
+		hasFreeze := false
+		ms := types.NewMethodSet(types.NewPointer(n))
+		for i := 0; i < ms.Len(); i++ {
+			if ms.At(i).Obj().Name() == "Freeze" {
+				hasFreeze = true
+			}
+		}
+		if !flagged && hasFreeze {
+			carriers[tname] = why
+		}
+	}
+	// who holds carriers: fields whose (elements') dynamic type the code asserts to be a carrier
+	holders := map[string]string{} // owner type -> "field f holds T (asserted at pos)"
+	for _, fn := range c.P.Funcs {
+		if !isProdPkg(fnPkgPath(fn)) {
+			continue
+		}
+		eachInstr(fn, func(in ssa.Instruction) {
+			ta, ok := in.(*ssa.TypeAssert)
+			if !ok {
+				return
+			}
+			tn := qualType(ta.AssertedType)
+			if _, isCarrier := carriers[tn]; !isCarrier {
+				return
+			}
+			tr := traceValue(ta.X)
+			for i, f := range tr.fields {
+				holders[qualType(tr.owners[i])] = fmt.Sprintf("field %s holds %s (asserted at %s)", f.Name(), tn, c.P.Pos(ta.Pos()))
+			}
+		})
+	}
+	n := 0
+	for _, fn := range c.P.Funcs {
+		if (fn.Name() != "Freeze" && fn.Name() != "freeze") || fn.Signature.Recv() == nil || !isProdPkg(fnPkgPath(fn)) {
+			continue
+		}
+		tname := qualType(fn.Signature.Recv().Type())
+		h, isHolder := holders[tname]
+		if !isHolder {
+			continue
+		}
+		n++
+		key := fnName(fn) + ": memo on a holder of rebindable cells"
+		st, _ := deref(fn.Signature.Recv().Type()).Underlying().(*types.Struct)
+		flagged := false
+		if st != nil {
+			for i := 0; i < st.NumFields(); i++ {
+				if st.Field(i).Name() == "frozen" {
+					flagged = true
+				}
+			}
+		}
+		if flagged {
+			c.viol(key, c.P.Pos(fn.Pos()), fmt.Sprintf("%s has a frozen flag that lets Freeze skip its contents, but %s, and that type is rebound after construction without a flag of its own (%s): a value bound after the first Freeze is never frozen although it is reachable from a finished module", tname, h, carriers[strings.SplitN(strings.SplitN(h, "holds ", 2)[1], " ", 2)[0]]))
+		} else {
+			c.ok(key, c.P.Pos(fn.Pos()), tname+" re-walks its contents on every Freeze ("+h+")")
+		}
+	}
+	if len(carriers) == 0 {
+		c.trivial("unflagged rebindable carriers", "-", "none: every type written after construction has a frozen flag")
+		return
+	}
+	if n == 0 {
+		c.anchorFail("carriers %v exist but no holder was found", carriers)
+	}
+}
